@@ -3,7 +3,7 @@
 (*  MODE = "wkb"  every header = order byte x type word x boundary element count x payload shape                *)
 (*                (the harness adds every truncation point of each)                                              *)
 (*  MODE = "wkt"  every sentence of <= MAXLEN tokens over the 16-token alphabet                                  *)
-(*  MODE = "mvt"  every command-word sequence of <= MAXLEN words over a 12-word alphabet x geometry type          *)
+(*  MODE = "mvt"  every command-word sequence of <= MAXLEN words over a 14-word alphabet x geometry type          *)
 EXTENDS Integers, Sequences, TLC, Json
 CONSTANTS MODE, MAXLEN
 VARIABLE s
@@ -14,7 +14,8 @@ Counts == {<<0,0,0,0>>, <<0,0,0,1>>, <<0,0,0,2>>, <<16,0,0,0>>, <<16,0,0,1>>, <<
 Payloads == {"none", "point", "short", "points2", "member"}
 WktAlphabet == {"POINT", "LINESTRING", "POLYGON", "MULTIPOINT", "MULTIPOLYGON", "GEOMETRYCOLLECTION", "EMPTY",
                 "(", ")", ",", " ", "1", "-2.5", "3e2", "x", "1e"}
-MvtWords == {0, 9, 17, 10, 18, 15, 7, 1, 2, 4, 2147483647, 26}      \* 2^31-1: ClosePath with a huge count
+\* 2^31-1: ClosePath with a huge count; 33554433 / 33554434: MoveTo / LineTo claiming 2^22 points
+MvtWords == {0, 9, 17, 10, 18, 15, 7, 1, 2, 4, 2147483647, 26, 33554433, 33554434}
 Init == s = <<>>
 Next == \/ MODE = "wkb" /\ s = <<>> /\ \E o \in Orders, t \in TypeWords, c \in Counts, p \in Payloads :
               s' = <<[o |-> o, ty |-> t, cnt |-> c, pay |-> p]>>
